@@ -80,7 +80,7 @@ def compare_loaded(cl, got, exp):
                'lecturer ranks present without -twopl: %s' % (got['lrank'],))
 
 
-def run_once(argv, chooser=None, seed=0, getters=('short', 'long'), mode='standin', timeLimit=None, presolve=False, **kw):
+def run_once(argv, chooser=None, seed=0, getters=('short', 'long'), mode='standin', timeLimit=None, presolve=False, postsolve=False, **kw):
     """Fresh Solver, one solve under observation (the virtual clock, if any, is
     already in place when the Solver is constructed).  Returns dict."""
     rec = observe.Recorder(mode=mode, chooser=chooser, seed=seed, **kw)
@@ -123,6 +123,19 @@ def run_once(argv, chooser=None, seed=0, getters=('short', 'long'), mode='standi
             except BaseException as e:  # noqa
                 r['texts'][g] = None
                 r.setdefault('getter_exc', {})[g] = '%s: %s' % (type(e).__name__, e)
+        if postsolve:
+            # a healthy solve on the same object AFTER the observed run (recovery), no time limit
+            post = observe.Recorder(mode='standin', seed=seed + 2, keep_sets=False, clock=rec.clock)
+            post.solver = S
+            observe._active[0] = post
+            try:
+                with impl.quiet():
+                    S.solve()
+                r['post_texts'] = {'short': S.get_results_short(), 'long': S.get_results_long()}
+            except BaseException as e:  # noqa
+                r['post_exc'] = '%s: %s' % (type(e).__name__, e)
+            finally:
+                observe._active[0] = rec
     return r
 
 
